@@ -361,3 +361,56 @@ package smtp
 //@   requires[C07:wf] a != nil && server != nil
 //@   ensures[C07:no-cleartext-password] err == nil ==> server.TLS || a.allowUnencryptedAuth || islocalname(server.Name)
 //@   ensures[C07:host-match] err == nil ==> server.Name == a.host
+
+// ---------------------------------------------------------------------------
+// C05  Envelope addresses and command lines cannot be smuggled
+//
+// nocrlf / argsafe / pathsafe are byte-level predicates (engine/stdlib/core.spec). pathsafe is
+// the necessary condition "no CR, LF, blank, '<' or '>'" for an address placed between the
+// angle brackets of MAIL FROM / RCPT TO.
+//@ func smtp.validateLine
+//@   ensures[C05:def] (result == nil) <==> nocrlf(line)
+//@ func smtp.validatePath
+//@   ensures[C05:def] (result == nil) <==> nobrk(addr)
+//@ func smtp.Client.cmd (expectCode, format, args) (code, msg, err)
+//@   requires[C05:format] c != nil && nocrlf(format)
+//@   requires[C05:args] forall k :: 0 <= k && k < len(args) && istype(args[k], "string") ==> nocrlf(unboxstr(args[k]))
+//@   requires[C05:path] (kind(format) == 3 || kind(format) == 4) ==> len(args) >= 1 && istype(args[0], "string") && pathsafe(unboxstr(args[0]))
+//@ pred namesafe(c *smtp.Client) = c != nil && (c.didHello || argsafe(c.localName))
+//@ func smtp.Client.hello
+//@   requires[C05:helo-name] namesafe(c)
+//@   ensures[C05:hello] c.didHello
+//@ func smtp.Client.ehlo
+//@   requires[C05:helo-name] c != nil && argsafe(c.localName)
+//@ func smtp.Client.helo
+//@   requires[C05:helo-name] c != nil && argsafe(c.localName)
+//@ func smtp.Client.Hello
+//@   requires[C05:helo-name] c != nil && argsafe(localName)
+//@ func smtp.Client.Mail
+//@   requires[C05:wf] namesafe(c) && argsafe(c.dsnmrtype)
+//@   ensures[C05:kept] (old(c.didHello) ==> c.didHello) && c.dsnmrtype == old(c.dsnmrtype) && c.dsnrntype == old(c.dsnrntype)
+//@ func smtp.Client.Rcpt
+//@   requires[C05:wf] c != nil && argsafe(c.dsnrntype)
+//@ func smtp.Client.Verify
+//@   requires[C05:wf] namesafe(c)
+//@ func smtp.Client.Reset
+//@   requires[C05:wf] namesafe(c)
+//@   ensures[C05:kept] c.didHello
+//@ func smtp.Client.Noop
+//@   requires[C05:wf] namesafe(c)
+//@   ensures[C05:kept] c.didHello
+//@ func smtp.Client.Quit
+//@   requires[C05:wf] namesafe(c)
+//@ func smtp.Client.Data
+//@   requires[C05:wf] c != nil
+//@ func smtp.Client.StartTLS
+//@   requires[C05:wf] c != nil && argsafe(c.localName)
+//@ func smtp.Client.Extension
+//@   requires[C05:wf] namesafe(c)
+//@   ensures[C05:kept] c.didHello
+//@ func smtp.Client.SetDSNMailReturnOption
+//@   requires[C05:dsn] c != nil && argsafe(d)
+//@   ensures[C05:dsn] c.dsnmrtype == d
+//@ func smtp.Client.SetDSNRcptNotifyOption
+//@   requires[C05:dsn] c != nil && argsafe(d)
+//@   ensures[C05:dsn] c.dsnrntype == d
